@@ -38,6 +38,7 @@ func init() {
 			{Name: "Resolve bypasses the shared lookup", File: "eval.go", Old: "func (state *Runtime) Resolve(name string) reflect.Value {\n\tv, _ := state.resolve(name)\n\treturn v\n}", New: "func (state *Runtime) Resolve(name string) reflect.Value {\n\treturn state.scope.variables[name]\n}", Rule: "C18.shared"},
 			{Name: "Context returns a stale copy", File: "eval.go", Old: "func (r *Runtime) Context() reflect.Value {\n\treturn r.context\n}", New: "func (r *Runtime) Context() reflect.Value {\n\treturn reflect.ValueOf(r.context.Interface())\n}", Rule: "C18.shared"},
 			{Name: "ParseInto stops one argument early", File: "func.go", Old: "\tfor i := 0; i < a.NumOfArguments(); i++ {\n\t\targ, ptr := indirectEface(a.Get(i)), ptrs[i]", New: "\tfor i := 0; i < a.NumOfArguments()-1; i++ {\n\t\targ, ptr := indirectEface(a.Get(i)), ptrs[i]", Rule: "C18.args"},
+			{Name: "a maximum of 0 is treated as no maximum (agent seed C14/5)", File: "func.go", Old: "} else if max >= 0 && num > max {", New: "} else if max > 0 && num > max {", Rule: "C18.args"},
 			{Name: "RequireNumOfArguments ignores the upper bound", File: "func.go", Old: "\t} else if max >= 0 && num > max {\n\t\ta.Panicf(\"unexpected number of arguments in a call to %s\", funcname)\n\t}", New: "\t}", Rule: "C18.args"},
 			{Name: "Let declares in the outermost scope", File: "eval.go", Old: "func (state *Runtime) Let(name string, val interface{}) {\n", New: "func (state *Runtime) Let(name string, val interface{}) {\n\tstate.LetGlobal(name, val)\n\treturn\n", Rule: "C18.shared"},
 			{Name: "LetGlobal stops at the first parent", File: "eval.go", Old: "\tfor sc.parent != nil && sc.parent.variables != nil {\n\t\tsc = sc.parent\n\t}", New: "\tif sc.parent != nil && sc.parent.variables != nil {\n\t\tsc = sc.parent\n\t}", Rule: "C18.top"},
@@ -374,124 +375,7 @@ func runC18(c *an.Ctx) {
 		}
 		c.Check(ok, "C18.args", "(*Arguments).ParseInto", f.Pos(), "ParseInto visits every argument position through Get and rejects too few pointers", why)
 	}
-	if f := c.Fn("C18.args", "(*Arguments).RequireNumOfArguments"); f != nil {
-		// for each bound parameter P (min, max): no normal return while `P >= 0` and `num beyond P` can both
-		// hold, num being NumOfArguments().  The form of the test (two ifs, one if with ||, nested ifs) is free.
-		finfo := f.Info()
-		isNum := func(e ast.Expr) bool {
-			e = an.Unparen(e)
-			if call, ok := e.(*ast.CallExpr); ok {
-				return an.IsCallTo(finfo, call, "(*jet.Arguments).NumOfArguments")
-			}
-			if id, ok := e.(*ast.Ident); ok {
-				for _, d := range an.LocalDefs(f, an.ObjOf(finfo, id)) {
-					if call, ok := an.Unparen(d).(*ast.CallExpr); ok && d != nil && an.IsCallTo(finfo, call, "(*jet.Arguments).NumOfArguments") {
-						return true
-					}
-				}
-			}
-			return false
-		}
-		type bound struct {
-			sign, cmp ast.Expr // P vs 0, num vs P
-			both      ast.Expr // the && joining them, when there is one
-		}
-		bounds := map[types.Object]*bound{}
-		paramOf := func(e ast.Expr) types.Object {
-			if id, ok := an.Unparen(e).(*ast.Ident); ok {
-				o := an.ObjOf(finfo, id)
-				if i, isParam := an.IsParam(f, o); isParam && i >= 1 {
-					return o
-				}
-			}
-			return nil
-		}
-		classify := func(b *ast.BinaryExpr) (types.Object, string) {
-			switch b.Op {
-			case token.LSS, token.GTR, token.LEQ, token.GEQ, token.EQL, token.NEQ:
-			default:
-				return nil, ""
-			}
-			for _, pr := range [][2]ast.Expr{{b.X, b.Y}, {b.Y, b.X}} {
-				if o := paramOf(pr[0]); o != nil {
-					if tv, ok := finfo.Types[pr[1]]; ok && tv.Value != nil {
-						return o, "sign"
-					}
-					if isNum(pr[1]) {
-						return o, "cmp"
-					}
-				}
-			}
-			return nil, ""
-		}
-		an.InspectOwn(f, func(n ast.Node) bool {
-			b, ok := n.(*ast.BinaryExpr)
-			if !ok {
-				return true
-			}
-			if o, kind := classify(b); o != nil {
-				if bounds[o] == nil {
-					bounds[o] = &bound{}
-				}
-				if kind == "sign" {
-					bounds[o].sign = b
-				} else {
-					bounds[o].cmp = b
-				}
-			}
-			if b.Op == token.LAND {
-				lx, lok := an.Unparen(b.X).(*ast.BinaryExpr)
-				rx, rok := an.Unparen(b.Y).(*ast.BinaryExpr)
-				if lok && rok {
-					lo, lk := classify(lx)
-					ro, rk := classify(rx)
-					if lo != nil && lo == ro && lk != rk {
-						if bounds[lo] == nil {
-							bounds[lo] = &bound{}
-						}
-						bounds[lo].both = b
-					}
-				}
-			}
-			return true
-		})
-		x := p.NewExplorer(f, an.Hooks{})
-		x.Run(nil)
-		c.States += x.Visited
-		ok, why := len(bounds) == 2, "RequireNumOfArguments does not compare NumOfArguments() with both the minimum and the maximum"
-		nRet := 0
-		for _, ex := range x.Exits {
-			if ex.Kind != an.ExitReturn {
-				continue
-			}
-			nRet++
-			for o, bd := range bounds {
-				if bd.sign == nil || bd.cmp == nil {
-					ok, why = false, "the bound "+o.Name()+" is not both tested for being set (>= 0) and compared with NumOfArguments()"
-					continue
-				}
-				excluded := false
-				if v, known := x.Truth(bd.sign, ex.State); known && !v {
-					excluded = true
-				}
-				if v, known := x.Truth(bd.cmp, ex.State); known && !v {
-					excluded = true
-				}
-				if bd.both != nil {
-					if v, known := x.Truth(bd.both, ex.State); known && !v {
-						excluded = true
-					}
-				}
-				if !excluded {
-					ok, why = false, "RequireNumOfArguments can return normally although the argument count may violate the bound "+o.Name()
-				}
-			}
-		}
-		if nRet == 0 {
-			ok, why = false, "RequireNumOfArguments never returns"
-		}
-		c.Check(ok, "C18.args", "(*Arguments).RequireNumOfArguments", f.Pos(), "both bounds are compared with NumOfArguments() and a violated bound never lets the function return", why)
-	}
+	requireNumRule(c, "C18.args")
 	// the accessors agree with evaluateArgs (same rules as C14.shift)
 	const canon = "!HasPipeSlot && piped!=nil"
 	for _, name := range shiftFns {
@@ -548,4 +432,138 @@ func countingLoop(f *an.Fn, fs *ast.ForStmt) (types.Object, string, bool) {
 		return nil, "", false
 	}
 	return v, an.Norm(f, cond.Y), true
+}
+
+// requireNumRule: Arguments.RequireNumOfArguments enforces both bounds (shared by C18.args and C14.count:
+// "a wrong argument count is an error" for jet.Func values rests on it).
+func requireNumRule(c *an.Ctx, rule string) {
+	p := c.P
+	if f := c.Fn(rule, "(*Arguments).RequireNumOfArguments"); f != nil {
+		// for each bound parameter P (min, max): no normal return while `P >= 0` and `num beyond P` can both
+		// hold, num being NumOfArguments().  The form of the test (two ifs, one if with ||, nested ifs) is free.
+		finfo := f.Info()
+		isNum := func(e ast.Expr) bool {
+			e = an.Unparen(e)
+			if call, ok := e.(*ast.CallExpr); ok {
+				return an.IsCallTo(finfo, call, "(*jet.Arguments).NumOfArguments")
+			}
+			if id, ok := e.(*ast.Ident); ok {
+				for _, d := range an.LocalDefs(f, an.ObjOf(finfo, id)) {
+					if call, ok := an.Unparen(d).(*ast.CallExpr); ok && d != nil && an.IsCallTo(finfo, call, "(*jet.Arguments).NumOfArguments") {
+						return true
+					}
+				}
+			}
+			return false
+		}
+		type bound struct {
+			sign, cmp ast.Expr // P vs 0, num vs P
+			both      ast.Expr // the && joining them, when there is one
+		}
+		bounds := map[types.Object]*bound{}
+		var signBad []string
+		paramOf := func(e ast.Expr) types.Object {
+			if id, ok := an.Unparen(e).(*ast.Ident); ok {
+				o := an.ObjOf(finfo, id)
+				if i, isParam := an.IsParam(f, o); isParam && i >= 1 {
+					return o
+				}
+			}
+			return nil
+		}
+		classify := func(b *ast.BinaryExpr) (types.Object, string) {
+			switch b.Op {
+			case token.LSS, token.GTR, token.LEQ, token.GEQ, token.EQL, token.NEQ:
+			default:
+				return nil, ""
+			}
+			for _, pr := range [][2]ast.Expr{{b.X, b.Y}, {b.Y, b.X}} {
+				if o := paramOf(pr[0]); o != nil {
+					if tv, ok := finfo.Types[pr[1]]; ok && tv.Value != nil {
+						return o, "sign"
+					}
+					if isNum(pr[1]) {
+						return o, "cmp"
+					}
+				}
+			}
+			return nil, ""
+		}
+		an.InspectOwn(f, func(n ast.Node) bool {
+			b, ok := n.(*ast.BinaryExpr)
+			if !ok {
+				return true
+			}
+			if o, kind := classify(b); o != nil {
+				if bounds[o] == nil {
+					bounds[o] = &bound{}
+				}
+				if kind == "sign" {
+					bounds[o].sign = b
+					// "the bound is set" must mean P >= 0 (a bound of 0 is a bound): P >= 0, 0 <= P, P > -1, -1 < P
+					x, y := an.Str(an.Unparen(b.X)), an.Str(an.Unparen(b.Y))
+					okSign := (b.Op == token.GEQ && y == "0") || (b.Op == token.LEQ && x == "0") || (b.Op == token.GTR && y == "-1") || (b.Op == token.LSS && x == "-1")
+					if !okSign {
+						signBad = append(signBad, an.Str(b))
+					}
+				} else {
+					bounds[o].cmp = b
+				}
+			}
+			if b.Op == token.LAND {
+				lx, lok := an.Unparen(b.X).(*ast.BinaryExpr)
+				rx, rok := an.Unparen(b.Y).(*ast.BinaryExpr)
+				if lok && rok {
+					lo, lk := classify(lx)
+					ro, rk := classify(rx)
+					if lo != nil && lo == ro && lk != rk {
+						if bounds[lo] == nil {
+							bounds[lo] = &bound{}
+						}
+						bounds[lo].both = b
+					}
+				}
+			}
+			return true
+		})
+		x := p.NewExplorer(f, an.Hooks{})
+		x.Run(nil)
+		c.States += x.Visited
+		ok, why := len(bounds) == 2, "RequireNumOfArguments does not compare NumOfArguments() with both the minimum and the maximum"
+		nRet := 0
+		for _, ex := range x.Exits {
+			if ex.Kind != an.ExitReturn {
+				continue
+			}
+			nRet++
+			for o, bd := range bounds {
+				if bd.sign == nil || bd.cmp == nil {
+					ok, why = false, "the bound "+o.Name()+" is not both tested for being set (>= 0) and compared with NumOfArguments()"
+					continue
+				}
+				excluded := false
+				if v, known := x.Truth(bd.sign, ex.State); known && !v {
+					excluded = true
+				}
+				if v, known := x.Truth(bd.cmp, ex.State); known && !v {
+					excluded = true
+				}
+				if bd.both != nil {
+					if v, known := x.Truth(bd.both, ex.State); known && !v {
+						excluded = true
+					}
+				}
+				if !excluded {
+					ok, why = false, "RequireNumOfArguments can return normally although the argument count may violate the bound "+o.Name()
+				}
+			}
+		}
+		if nRet == 0 {
+			ok, why = false, "RequireNumOfArguments never returns"
+		}
+		if len(signBad) > 0 {
+			ok, why = false, fmt.Sprintf("a bound counts as given only under `%s`, not under `>= 0`: a bound of 0 (no arguments allowed / at least none) is not enforced", signBad[0])
+		}
+		c.Check(ok, rule, "(*Arguments).RequireNumOfArguments", f.Pos(), "both bounds are compared with NumOfArguments() and a violated bound never lets the function return", why)
+	}
 }
